@@ -237,7 +237,10 @@ Proof.
       { intros l Hl E. now apply (Inv_uid_below s ib l I). }
       pose proof (next_validity_fresh s b t) as N.
       destruct (create_row_good s b t s1 nid I Cr) as ([I1 _] & _).
-      destruct (reparent_good s s1 (mb_id ib) nid b (next_validity s t) (mb_next ib) I I1) as (s2 & -> & G); auto;
+      set (x := Z.max (match find_id s1 nid with Some mt => mb_next mt | None => 1 end) (mb_next ib)).
+      assert (Hx' : forall l, In l (links s) -> lk_mbox l = mb_id ib -> lk_uid l < x).
+      { intros l Hl E. specialize (Hx l Hl E). unfold x. lia. }
+      destruct (reparent_good s s1 (mb_id ib) nid b (next_validity s t) x I I1) as (s2 & -> & G); auto;
         rewrite Es1; reflexivity.
     + (* plain RENAME *)
       destruct (find_name s a) as [m|] eqn:Fa; [|apply Good_refl; auto].
